@@ -178,6 +178,11 @@ def lookupRange (tag : Nat) : List (Nat × Nat × String) → Option String
 
 def specVariant (tag : Nat) : String := (lookupRange tag variantRanges).getD "?"
 
+/-- the ranges are listed in increasing order and tile `next ..= 255` without gap or overlap -/
+def rangesTile (next : Nat) : List (Nat × Nat × String) → Bool
+  | [] => next == 256
+  | (lo, hi, _) :: rest => lo == next && decide (lo ≤ hi) && rangesTile (hi + 1) rest
+
 /-! ### ISO_639_language_descriptor (2.6.18): N × (ISO_639_language_code 24, audio_type 8) -/
 
 def langOf (g : Bytes) : LangItem := .lang (g.take 3) (readBits g 24 8)
@@ -261,5 +266,12 @@ decreasing_by unfold streamFits at *; simp; omega
 def encodePmt (reservedA pcrPid reservedB : Nat) (progDesc : Bytes) (streams : List StreamEnc) : Bytes :=
   let w := cat (cat (cat (cat 0 3 reservedA) 13 pcrPid) 4 reservedB) 12 progDesc.length
   [beByte w 4 0, beByte w 4 1, beByte w 4 2, beByte w 4 3] ++ progDesc ++ (streams.map encodeStream).flatten
+
+/-- example body used by the non-vacuity checks: PCR PID 0x100, no program descriptors, an H.264
+stream without descriptors and an AAC stream with an ISO-639 descriptor -/
+def pmtExample : Bytes :=
+  [0xe1, 0x00, 0xf0, 0x00,
+   0x1b, 0xe1, 0x00, 0xf0, 0x00,
+   0x0f, 0xe1, 0x01, 0xf0, 0x06, 0x0a, 0x04, 0x65, 0x6e, 0x67, 0x00]
 
 end Ts.Spec.TableSpec
